@@ -29,6 +29,8 @@ def main():
         src = f"/tmp/seed2-out/{prop}"
     if which in ("F", "G"):  # round 6
         src = f"/tmp/r6-out/{prop}"
+    if which in ("H", "J"):  # round 7
+        src = f"/tmp/r7-out/{prop}"
     dst = f"/verif/seeded/{prop}-{which}"
     if not prop.startswith("C"):  # round 3: <area> X1|X2|X3, judged by all 19 checks
         src = f"/tmp/adv-out/{prop}"
